@@ -27,7 +27,7 @@ def ucase(app, about, posflag, posname, groups, again=False, parsed=False, early
                       ";".join("%s:%s:%s" % (hexs(n), hexs(d), "|".join(es)) for n, d, es in groups)])
 
 
-WORDS = ["the", "number", "of", "threads", "used", "for", "a", "compression-level", "x" * 38, "y" * 41, "z" * 79, "w" * 120,
+WORDS = ["the", "number", "of", "threads", "used", "for", "a", "compression-level", "x" * 38, "q" * 39, "y" * 41, "r" * 40, "z" * 79, "w" * 120,
          "ok.", "(sic)", "a\tb", "--flag", "1,2"]
 
 
